@@ -826,11 +826,47 @@ fn check_net_grads(
         Ok(n) => n,
         Err(_) => return false, // the builder's behaviour is not the subject here
     };
+    if !check_net_grads_on(f, rng, spec, &mut n, x, y, kmax, key_of, "") {
+        return false;
+    }
+    // second pass on the SAME network object after the library's own update path has changed the
+    // parameters (two steps of learn on the sample): the gradients must be the derivative at the
+    // parameters the network holds NOW (no state of an earlier backward pass may survive an update)
+    let mut spec2 = spec.clone();
+    spec2.opt = Opt::SGD { lr: 0.05, decay: None };
+    if let Ok(n2) = catch_unwind(AssertUnwindSafe(|| spec2.build())) {
+        let mut n2 = n2;
+        let warm = catch_unwind(AssertUnwindSafe(|| {
+            let _ = net_backward(&n2, x, y);
+            let _ = n2.learn(&vec![x], &vec![y], None, 1, 2, None);
+            n2
+        }));
+        if let Ok(mut n2) = warm {
+            let finite = param_addrs(&n2).iter().all(|a| get_param(&n2, *a).iter().all(|v| v.is_finite() && v.abs() < 1e3));
+            if finite {
+                let _ = check_net_grads_on(f, rng, &spec2, &mut n2, x, y, kmax, key_of, " [after two update steps of learn on this network object]");
+            }
+        }
+    }
+    true
+}
+
+fn check_net_grads_on(
+    f: &mut Fals,
+    rng: &mut Rng,
+    spec: &NetSpec,
+    n: &mut Network,
+    x: &Tensor,
+    y: &Tensor,
+    kmax: usize,
+    key_of: &dyn Fn(PAddr, &'static str) -> Option<String>,
+    note: &str,
+) -> bool {
     let kinks = kinks_of(spec);
-    let addrs = param_addrs(&n);
-    let desc = || format!("{}; sample input {}; target {}", show_spec(spec), show_t(x), show_t(y));
-    let keys: Vec<(PAddr, String)> = addrs.iter().filter_map(|a| key_of(*a, kind_name(&n, *a)).map(|k| (*a, k))).collect();
-    let (l0, base) = match net_eval(&n, &kinks, spec.obj, x, y) {
+    let addrs = param_addrs(n);
+    let desc = || format!("{}; sample input {}; target {}{}", show_spec(spec), show_t(x), show_t(y), note);
+    let keys: Vec<(PAddr, String)> = addrs.iter().filter_map(|a| key_of(*a, kind_name(n, *a)).map(|k| (*a, k))).collect();
+    let (l0, base) = match net_eval(n, &kinks, spec.obj, x, y) {
         Ev::Ok(l, p) => (l, p),
         Ev::Invalid => return false,
         Ev::Panic => {
@@ -840,7 +876,8 @@ fn check_net_grads(
             return true;
         }
     };
-    let g = match net_backward(&n, x, y) {
+    // the library gradient is taken BEFORE any parameter is touched by the finite differences
+    let g = match net_backward(n, x, y) {
         Some(g) => g,
         None => {
             for (_, k) in &keys {
@@ -851,7 +888,7 @@ fn check_net_grads(
     };
     let nl = n.layers.len();
     for (a, key) in keys {
-        let count = get_param(&n, a).len();
+        let count = get_param(n, a).len();
         let glib = match lib_grad(&g, nl, a) {
             Some(v) => v,
             None => {
@@ -861,7 +898,7 @@ fn check_net_grads(
         };
         let coords = sample(rng, count, kmax);
         let obj = spec.obj;
-        let v = compare(&glib, count, &coords, l0.abs(), &mut |i| fd_param(&mut n, a, i, &base, &|n| net_eval(n, &kinks, obj, x, y)));
+        let v = compare(&glib, count, &coords, l0.abs(), &mut |i| fd_param(n, a, i, &base, &|n| net_eval(n, &kinks, obj, x, y)));
         stat(&key, if v.bad.is_some() { 0.0 } else { v.ratio }, v.checked, v.skipped);
         if v.checked == 0 {
             continue;
